@@ -164,3 +164,330 @@ def gen_pluginref():
     out.append("def totalOrderingDecorated : Bool := %s" % ("true" if deco else "false"))
     out.append("\nend MetadorModel.Gen.PluginRef\n")
     return "\n".join(out)
+
+
+# =========================================================================== C08 / C15
+# (appended by the C08/C15 builder; nothing above is changed)
+
+def lean_str(s):
+    """Lean `List Char` literal of an ASCII Python string."""
+    if not all(32 <= ord(c) < 127 for c in s):
+        raise TranslateError("non-ASCII string constant %r" % s)
+    if s == "":
+        return "([] : Str)"
+    esc = {"'": "\\'", "\\": "\\\\"}
+    return "[" + ", ".join("'%s'" % esc.get(c, c) for c in s) + "]"
+
+
+def lean_char(s):
+    if len(s) != 1:
+        raise TranslateError("expected a one-character separator, got %r" % s)
+    return lean_str(s)[1:-1]
+
+
+def module_str_constants(tree):
+    """Evaluate module-level `NAME[: Final[str]] = <str expr>` assignments (constants, +, f-strings)."""
+    env = {}
+
+    def ev(e):
+        if isinstance(e, ast.Constant) and isinstance(e.value, str):
+            return e.value
+        if isinstance(e, ast.Name) and e.id in env:
+            return env[e.id]
+        if isinstance(e, ast.BinOp) and isinstance(e.op, ast.Add):
+            return ev(e.left) + ev(e.right)
+        if isinstance(e, ast.JoinedStr):
+            out = ""
+            for v in e.values:
+                if isinstance(v, ast.Constant):
+                    out += v.value
+                elif isinstance(v, ast.FormattedValue) and v.conversion == -1 and v.format_spec is None:
+                    out += ev(v.value)
+                else:
+                    raise TranslateError("unsupported f-string part")
+            return out
+        raise TranslateError("unsupported constant expression")
+
+    for n in tree.body:
+        tgt = val = None
+        if isinstance(n, ast.AnnAssign) and isinstance(n.target, ast.Name) and n.value is not None:
+            tgt, val = n.target.id, n.value
+        elif isinstance(n, ast.Assign) and len(n.targets) == 1 and isinstance(n.targets[0], ast.Name):
+            tgt, val = n.targets[0].id, n.value
+        if tgt:
+            try:
+                env[tgt] = ev(val)
+            except TranslateError:
+                pass
+    return env
+
+
+class PathFn:
+    """Translator for the small string functions of container/utils.py.
+    Types: str, bool, int (Lean Int), nat, strs (list of str)."""
+
+    def __init__(self, consts):
+        self.consts = consts  # module constant name -> python value
+        self.env = {}  # variable -> type
+
+    def ty_of_ann(self, ann):
+        if isinstance(ann, ast.Name) and ann.id in ("str", "bool"):
+            return ann.id
+        raise TranslateError("unsupported annotation %s" % ast.dump(ann)[:60])
+
+    def expr(self, e, want=None):
+        if isinstance(e, ast.Name):
+            if e.id in self.env:
+                return e.id, self.env[e.id]
+            if e.id in self.consts:
+                return e.id, "str"
+            raise TranslateError("unknown name %s" % e.id)
+        if isinstance(e, ast.Constant):
+            if isinstance(e.value, bool):
+                return ("true" if e.value else "false"), "bool"
+            if isinstance(e.value, str):
+                return lean_str(e.value), "str"
+            if isinstance(e.value, int):
+                if want == "nat":
+                    if e.value < 0:
+                        raise TranslateError("negative nat constant")
+                    return "(%d : Nat)" % e.value, "nat"
+                return "(%d : Int)" % e.value, "int"
+            raise TranslateError("unsupported constant %r" % (e.value,))
+        if isinstance(e, ast.List):
+            parts = [self.expr(x) for x in e.elts]
+            if any(t != "str" for _, t in parts):
+                raise TranslateError("list literal of non-strings")
+            return "[" + ", ".join(p for p, _ in parts) + "]", "strs"
+        if isinstance(e, ast.JoinedStr):
+            parts = []
+            for v in e.values:
+                if isinstance(v, ast.Constant):
+                    parts.append(lean_str(v.value))
+                elif isinstance(v, ast.FormattedValue) and v.conversion == -1 and v.format_spec is None:
+                    x, t = self.expr(v.value)
+                    if t != "str":
+                        raise TranslateError("f-string of non-str")
+                    parts.append(x)
+                else:
+                    raise TranslateError("unsupported f-string part")
+            return "(" + " ++ ".join(parts) + ")", "str"
+        if isinstance(e, ast.BinOp) and isinstance(e.op, ast.Add):
+            l, lt = self.expr(e.left)
+            r, rt = self.expr(e.right)
+            if lt == rt == "str":
+                return "(%s ++ %s)" % (l, r), "str"
+            raise TranslateError("unsupported + on %s, %s" % (lt, rt))
+        if isinstance(e, ast.Call):
+            f = e.func
+            if isinstance(f, ast.Name) and f.id == "len" and len(e.args) == 1:
+                x, t = self.expr(e.args[0])
+                if t in ("str", "strs"):
+                    return "(%s).length" % x, "nat"
+                raise TranslateError("len of %s" % t)
+            if isinstance(f, ast.Attribute) and not e.keywords:
+                meth = f.attr
+                if meth == "join" and len(e.args) == 1 and isinstance(f.value, ast.Constant) and isinstance(f.value.value, str):
+                    x, t = self.expr(e.args[0])
+                    if t != "strs":
+                        raise TranslateError("join of %s" % t)
+                    return "(pyJoin %s %s)" % (lean_char(f.value.value), x), "str"
+                recv, rt = self.expr(f.value)
+                if rt == "str" and meth == "startswith" and len(e.args) == 1:
+                    a, at = self.expr(e.args[0])
+                    if at == "str":
+                        return "(pyStartswith %s %s)" % (recv, a), "bool"
+                if rt == "str" and meth == "find" and len(e.args) == 1:
+                    a, at = self.expr(e.args[0])
+                    if at == "str":
+                        return "(pyFind %s %s)" % (recv, a), "int"
+                if rt == "str" and meth == "split" and len(e.args) == 1 and isinstance(e.args[0], ast.Constant) and isinstance(e.args[0].value, str):
+                    return "(pySplit %s %s)" % (recv, lean_char(e.args[0].value)), "strs"
+            raise TranslateError("unsupported call %s" % ast.dump(e)[:100])
+        if isinstance(e, ast.Subscript):
+            base, bt = self.expr(e.value)
+            idx = e.slice
+            if bt == "strs" and isinstance(idx, ast.UnaryOp) and isinstance(idx.op, ast.USub) and isinstance(idx.operand, ast.Constant) and idx.operand.value == 1:
+                return "(pyLast %s)" % base, "str"
+            if bt == "strs" and isinstance(idx, ast.Constant) and idx.value == 0:
+                return "(pyHead %s)" % base, "str"
+            if bt == "str" and isinstance(idx, ast.Slice) and idx.upper is None and idx.step is None and idx.lower is not None:
+                lo, lt = self.expr(idx.lower, want="nat")
+                if lt == "nat":
+                    return "(pyDrop %s %s)" % (lo, base), "str"
+            raise TranslateError("unsupported subscript %s" % ast.dump(e)[:100])
+        if isinstance(e, ast.Compare) and len(e.ops) == 1:
+            op = e.ops[0]
+            l, lt = self.expr(e.left)
+            r, rt = self.expr(e.comparators[0], want=lt if lt in ("nat", "int") else None)
+            if lt == "nat" and rt == "int" or lt == "int" and rt == "nat":
+                raise TranslateError("int/nat comparison")
+            if lt != rt:
+                raise TranslateError("comparison of %s with %s" % (lt, rt))
+            if isinstance(op, ast.Eq):
+                return "(%s == %s)" % (l, r), "bool"
+            if isinstance(op, ast.NotEq):
+                return "(%s != %s)" % (l, r), "bool"
+            sym = {ast.GtE: "≥", ast.Gt: ">", ast.LtE: "≤", ast.Lt: "<"}.get(type(op))
+            if sym and lt in ("int", "nat"):
+                return "(decide (%s %s %s))" % (l, sym, r), "bool"
+            raise TranslateError("unsupported comparison")
+        if isinstance(e, ast.BoolOp):
+            parts = [self.expr(v) for v in e.values]
+            if any(t != "bool" for _, t in parts):
+                raise TranslateError("and/or on non-bool")
+            sym = " && " if isinstance(e.op, ast.And) else " || "
+            return "(" + sym.join(p for p, _ in parts) + ")", "bool"
+        if isinstance(e, ast.UnaryOp) and isinstance(e.op, ast.Not):
+            v, t = self.expr(e.operand)
+            if t == "bool":
+                return "(!%s)" % v, "bool"
+        raise TranslateError("unsupported expression %s" % ast.dump(e)[:100])
+
+    # ---- statements
+    def simple(self, s, ind):
+        """A non-branching statement -> Lean `let` line(s); returns the variable it (re)binds."""
+        if isinstance(s, ast.Assign) and len(s.targets) == 1:
+            t = s.targets[0]
+            if isinstance(t, ast.Name):
+                v, ty = self.expr(s.value)
+                self.env[t.id] = ty
+                return "%slet %s := %s\n" % (ind, t.id, v), t.id
+            if isinstance(t, ast.Subscript) and isinstance(t.value, ast.Name) and self.env.get(t.value.id) == "strs":
+                i = t.slice
+                if isinstance(i, ast.UnaryOp) and isinstance(i.op, ast.USub) and isinstance(i.operand, ast.Constant) and i.operand.value == 1:
+                    v, ty = self.expr(s.value)
+                    if ty != "str":
+                        raise TranslateError("list element of type %s" % ty)
+                    return "%slet %s := pySetLast %s %s\n" % (ind, t.value.id, t.value.id, v), t.value.id
+        if isinstance(s, ast.Expr) and isinstance(s.value, ast.Call) and isinstance(s.value.func, ast.Attribute) and isinstance(s.value.func.value, ast.Name):
+            recv = s.value.func.value.id
+            if self.env.get(recv) == "strs" and not s.value.keywords:
+                if s.value.func.attr == "append" and len(s.value.args) == 1:
+                    v, ty = self.expr(s.value.args[0])
+                    if ty == "str":
+                        return "%slet %s := %s ++ [%s]\n" % (ind, recv, recv, v), recv
+                if s.value.func.attr == "pop" and not s.value.args:
+                    return "%slet %s := pyPop %s\n" % (ind, recv, recv), recv
+        raise TranslateError("unsupported statement %s" % ast.dump(s)[:100])
+
+    def has_return(self, body):
+        return any(isinstance(n, ast.Return) for s in body for n in ast.walk(s))
+
+    def mutation_block(self, body, var, ind):
+        """Statements without return that (re)bind only `var`; value: the final `var`."""
+        out = ""
+        for s in body:
+            if isinstance(s, ast.If):
+                out += self.mutation_if(s, var, ind)
+            else:
+                txt, v = self.simple(s, ind)
+                if v != var:
+                    raise TranslateError("branch binds %s, expected %s" % (v, var))
+                out += txt
+        return out + ind + var
+
+    def bound_vars(self, body):
+        vs = []
+        for s in body:
+            if isinstance(s, ast.If):
+                vs += self.bound_vars(s.body) + self.bound_vars(s.orelse)
+            elif isinstance(s, ast.Assign) and isinstance(s.targets[0], ast.Name):
+                vs.append(s.targets[0].id)
+            elif isinstance(s, ast.Assign) and isinstance(s.targets[0], ast.Subscript) and isinstance(s.targets[0].value, ast.Name):
+                vs.append(s.targets[0].value.id)
+            elif isinstance(s, ast.Expr) and isinstance(s.value, ast.Call) and isinstance(s.value.func, ast.Attribute) and isinstance(s.value.func.value, ast.Name):
+                vs.append(s.value.func.value.id)
+            else:
+                raise TranslateError("unsupported statement in branch")
+        return vs
+
+    def mutation_if(self, s, var, ind):
+        c, t = self.expr(s.test)
+        if t != "bool":
+            raise TranslateError("if on non-bool")
+        a = self.mutation_block(s.body, var, ind + "    ")
+        b = self.mutation_block(s.orelse, var, ind + "    ") if s.orelse else ind + "    " + var
+        return "%slet %s :=\n%s  if %s then (\n%s)\n%s  else (\n%s)\n" % (ind, var, ind, c, a, ind, b)
+
+    def block(self, body, ind="  "):
+        body = strip_doc(body)
+        if not body:
+            raise TranslateError("function may fall off its end")
+        s, rest = body[0], body[1:]
+        if isinstance(s, ast.Return):
+            if s.value is None:
+                raise TranslateError("bare return")
+            v, t = self.expr(s.value)
+            self.ret_ty = t
+            return ind + v
+        if isinstance(s, ast.If):
+            if self.has_return(s.body) or self.has_return(s.orelse):
+                if not (s.body and isinstance(s.body[-1], ast.Return)):
+                    raise TranslateError("unsupported early-return shape")
+                c, t = self.expr(s.test)
+                if t != "bool":
+                    raise TranslateError("if on non-bool")
+                saved = dict(self.env)
+                a = self.block(s.body, ind + "  ")
+                self.env = dict(saved)
+                b = self.block(list(s.orelse) + list(rest), ind + "  ")
+                return "%sif %s then\n%s\n%selse\n%s" % (ind, c, a, ind, b)
+            vs = set(self.bound_vars(s.body) + self.bound_vars(s.orelse))
+            if len(vs) != 1:
+                raise TranslateError("if statement binds %s" % sorted(vs))
+            return self.mutation_if(s, vs.pop(), ind) + self.block(rest, ind)
+        txt, _ = self.simple(s, ind)
+        return txt + self.block(rest, ind)
+
+
+def gen_paths():
+    tree = parse_source("src/metador_core/container/utils.py")
+    consts = module_str_constants(tree)
+    for need in ("METADOR_PREF", "METADOR_META_PREF"):
+        if need not in consts:
+            raise TranslateError("constant %s not found" % need)
+    out = [
+        "import MetadorModel.Model.Paths",
+        "/-! GENERATED on every run by harness/translate.py from",
+        "    src/metador_core/container/utils.py. Do not edit. -/",
+        "namespace MetadorModel.Gen.Paths",
+        "open MetadorModel.Paths (Str pyStartswith pyFind pySplit pyJoin pyLast pyHead pySetLast pyPop pyDrop)",
+        "",
+    ]
+    for k in ("METADOR_PREF", "METADOR_META_PREF", "METADOR_TOC_PATH"):
+        if k in consts:
+            out.append("def %s : Str := %s" % (k, lean_str(consts[k])))
+    out.append("")
+    lty = {"str": "Str", "bool": "Bool"}
+    for name in ("is_internal_path", "is_meta_base_path", "to_meta_base_path", "to_data_node_path"):
+        fn = find_func(tree, name)
+        tr_ = PathFn(consts)
+        params = []
+        a = fn.args
+        if a.vararg or a.kwarg or a.kwonlyargs:
+            raise TranslateError("%s: unsupported parameters" % name)
+        defaults = [None] * (len(a.args) - len(a.defaults)) + list(a.defaults)
+        for arg, d in zip(a.args, defaults):
+            ty = tr_.ty_of_ann(arg.annotation)
+            tr_.env[arg.arg] = ty
+            params.append((arg.arg, ty, d))
+        body = tr_.block(fn.body)
+        rty = tr_.ty_of_ann(fn.returns)
+        if rty != tr_.ret_ty:
+            raise TranslateError("%s: returns %s, annotated %s" % (name, tr_.ret_ty, rty))
+        out.append("def %s %s : %s :=\n%s\n" % (name, " ".join("(%s : %s)" % (p, lty[t]) for p, t, _ in params), lty[rty], body))
+        if any(d is not None for _, _, d in params):
+            req = [(p, t) for p, t, d in params if d is None]
+            args = []
+            for p, t, d in params:
+                if d is None:
+                    args.append(p)
+                else:
+                    v, vt = PathFn(consts).expr(d)
+                    if vt != t:
+                        raise TranslateError("default of %s has type %s" % (p, vt))
+                    args.append(v)
+            out.append("def %s_d %s : %s := %s %s\n" % (name, " ".join("(%s : %s)" % (p, lty[t]) for p, t in req), lty[rty], name, " ".join(args)))
+    out.append("end MetadorModel.Gen.Paths\n")
+    return "\n".join(out)
